@@ -212,7 +212,7 @@ func genOptionsCase(r *rand.Rand, w *bufio.Writer) {
 			}
 			txt := optText(r, v, true)
 			switch {
-			case k.kind == "b" && r.Intn(4) == 0:
+			case k.kind == "b" && r.Intn(6) == 0:
 				// the documented form `-key value` for a boolean (true/false/1/0/t/f/…): package flag sets the key to
 				// true and takes the word for the first positional argument
 				args = append(args, []string{dash + k.flag, txt})
@@ -299,8 +299,10 @@ func genOptionsCase(r *rand.Rand, w *bufio.Writer) {
 			}
 		}
 	case 5:
-		args = append(args, []string{[]string{"-h", "-help", "--help"}[r.Intn(3)]})
-		special = "exit 0"
+		if !stray { // behind a positional word -h is not read: the command line is refused (2) before or instead of helped (0)
+			args = append(args, []string{[]string{"-h", "-help", "--help"}[r.Intn(3)]})
+			special = "exit 0"
+		}
 	case 6:
 		// `-key word` for a boolean key with a word that is no boolean: like `-key=word`, nothing to start with
 		for _, ki := range r.Perm(len(optKeys)) {
@@ -372,7 +374,7 @@ func genOptionsCase(r *rand.Rand, w *bufio.Writer) {
 			back = append(back, []string{"-log-file"}, []string{[]string{"-config", "--config"}[r.Intn(2)], "@"})
 		}
 	}
-	if special == "" && !noOracle && r.Intn(12) == 0 {
+	if special == "" && !noOracle && r.Intn(20) == 0 {
 		// a word that is neither a flag nor the value of one, anywhere among the flags (the flags behind it stay
 		// on the command line: F31); never directly behind a bare boolean flag, whose `-key value` form it would be
 		var g [][]string
